@@ -231,15 +231,21 @@ def write_and_read(mol, moltype='verif'):
 _HDR = re.compile(rb'^State \d+:', re.M)
 
 
-def _dump_ranges(path, nparts):
+def _dump_ranges(path, nparts, marker=b'done |-> TRUE'):
+    """Byte ranges of the dump that together hold all states containing `marker` (TLC dumps breadth first, so the final
+    states sit at the end of the file), balanced by the number of such states."""
     with open(path, 'rb') as fh:
         data = fh.read()
-    starts = [mm.start() for mm in _HDR.finditer(data)]
-    if not starts:
+    starts = [mm.start() for mm in _HDR.finditer(data)] + [len(data)]
+    wanted = [i for i in range(len(starts) - 1) if data.find(marker, starts[i], starts[i + 1]) >= 0]
+    if not wanted:
         return []
-    step = max(1, len(starts) // nparts)
-    cuts = starts[::step] + [len(data)]
-    return [(path, cuts[i], cuts[i + 1]) for i in range(len(cuts) - 1)]
+    step = max(1, (len(wanted) + nparts - 1) // nparts)
+    out = []
+    for a in range(0, len(wanted), step):
+        grp = wanted[a:a + step]
+        out.append((path, starts[grp[0]], starts[grp[-1] + 1]))
+    return out
 
 
 def features(m):
